@@ -49,6 +49,7 @@ def run(ck, fb):
     r04k(ck, fb)
     r04l(ck, fb)
     r04m(ck, fb)
+    ck.borrow('rules.c20', {'R20i': 'R04n'}, 'a kill right after the first catalogue write (term and vote only) leaves an 11..17 byte index file: it must reopen')
 
 
 def r04a(ck, fb):
